@@ -541,24 +541,41 @@ impl Stream {
         let group = self.consumer_groups.get_group(group_name)
             .ok_or_else(|| format!("NOGROUP No such consumer group {} for stream", group_name))?;
         
-        // Get entries after the specified ID
         let data = self.data.lock().unwrap();
-        let entries = if after_id == StreamId::max() {
-            // Special case: ">" means only new entries
-            let last_delivered = group.get_last_id();
-            data.range_after(&last_delivered, count).entries
-        } else {
-            data.range_after(&after_id, count).entries
-        };
+        
+        if after_id != StreamId::max() {
+            // An explicit ID asks for this consumer's own history: the entries delivered to it
+            // and not yet acknowledged, after that ID. Nothing is delivered anew.
+            let entries = group.pending_ids_of(consumer_name, after_id, count)
+                .iter()
+                .filter_map(|id| {
+                    data.entries.binary_search_by(|e| e.id.cmp(id))
+                        .ok()
+                        .map(|idx| data.entries[idx].clone())
+                })
+                .collect();
+            return Ok(entries);
+        }
+        
+        // ">" means entries never delivered to this group
+        let last_delivered = group.get_last_id();
+        let entries = data.range_after(&last_delivered, count).entries;
         
         drop(data);
         
-        if !noack && !entries.is_empty() {
-            // Add entries to pending unless NOACK
-            let pending_entries = group.add_pending(consumer_name, entries.clone());
-            Ok(pending_entries)
-        } else {
+        if entries.is_empty() {
+            return Ok(entries);
+        }
+        
+        if noack {
+            // Delivered without becoming pending: the group moves on all the same
+            if let Some(last_entry) = entries.last() {
+                group.advance_last_id(last_entry.id);
+            }
+            group.create_consumer(consumer_name.to_string());
             Ok(entries)
+        } else {
+            Ok(group.add_pending(consumer_name, entries))
         }
     }
     
